@@ -45,6 +45,10 @@ func callsNamed(in ssa.Instruction, names ...string) bool {
 	} else if sf := staticCallee(cc); sf != nil {
 		n = sf.Name()
 	}
+	// instantiations of generic methods are named Len[K,V]
+	if i := strings.IndexByte(n, '['); i > 0 {
+		n = n[:i]
+	}
 	for _, x := range names {
 		if n == x {
 			return true
